@@ -3,6 +3,7 @@ mod c03;
 mod c05n;
 mod c02;
 mod c07;
+mod c14;
 mod c18;
 mod c08;
 mod c09;
@@ -146,6 +147,10 @@ fn main() {
         "c02" => {
             let o = c02::generate(seed, scale);
             o.write(&out, "c02", "From MLV Require Import model.Bytes model.Server model.Validate model.Check02.", "c02case", "run02", shards);
+        }
+        "c14" => {
+            let o = c14::generate(seed, scale);
+            o.write(&out, "c14", "From MLV Require Import model.Bytes model.Maint model.Check14.", "c14case", "run14", shards);
         }
         "c18" => {
             let o = c18::generate(seed, scale);
